@@ -1610,7 +1610,10 @@ BTree_findRangeEnd(BTree *self, PyObject *keyarg, int low, int exclude_equal,
             Py_INCREF(pbucket);
         }
         UNLESS(PER_USE(pbucket))
+        {
+            Py_DECREF(pbucket);     /* ours, and not handed on */
             goto Done;
+        }
         result = 1;
         *bucket = pbucket;  /* transfer ownership to caller */
         *offset = pbucket->len - 1;
